@@ -238,6 +238,9 @@ func genOne(r *rng.R, idx int, seed uint64, mode string, gated, concrete bool, t
 	if mode == "connectfunc" {
 		p.FnWrap = r.Intn(2) == 0
 	}
+	if mode == "socks5" {
+		p.SocksAtyp = []int{1, 3, 4}[r.Intn(3)]
+	}
 	if mode == "upgrade" {
 		p.ViaProxy = r.Intn(3) == 0
 	} else if mode != "upgradetls" && r.Intn(2) == 0 {
@@ -503,8 +506,8 @@ func coqCase(o outcome, graceNs int64) string {
 		tr := fmt.Sprintf("(%s %s)", fn, hexChunks(traceString(o.built.Labels, p.Concrete)))
 		ok := len(o.built.Problems) == 0
 		if p.Concrete {
-			fmt.Fprintf(&sb, "{| cc_mode := %d; cc_wellformed := %s; cc_grace := (%d)%%Z; cc_fr := %s; cc_tmo := %s; cc_treq := (%d)%%Z; cc_tresp := (%d)%%Z; cc_weak := %s; cc_cipher_wn := %d; cc_cipher_w := %d; cc_cipher_r := %d; cc_head := %s; cc_lcsched := %s; cc_early := %s; cc_skip := %s; cc_kept := %s;\n   cc_trace := %s;\n   cc_obs := %s |}",
-				modeN(p.Mode), b2c(ok), graceNs, coqFraming(p), coqTimeouts(p), o.built.TReq, o.built.TResp, b2c(o.built.Weak), o.built.CipherWN, o.built.CipherW, o.built.CipherR, coqHead(o), coqNats(o.built.LCSched), hexs(o.built.Early), hexs(o.built.Skip), hexs(o.built.Kept), tr, coqObs(o, true))
+			fmt.Fprintf(&sb, "{| cc_mode := %d; cc_wellformed := %s; cc_grace := (%d)%%Z; cc_fr := %s; cc_tmo := %s; cc_treq := (%d)%%Z; cc_tresp := (%d)%%Z; cc_weak := %s; cc_cipher_wn := %d; cc_cipher_w := %d; cc_cipher_r := %d; cc_head := %s; cc_lcsched := %s; cc_socks := %s; cc_dcread0 := %d; cc_early := %s; cc_skip := %s; cc_kept := %s;\n   cc_trace := %s;\n   cc_obs := %s |}",
+				modeN(p.Mode), b2c(ok), graceNs, coqFraming(p), coqTimeouts(p), o.built.TReq, o.built.TResp, b2c(o.built.Weak), o.built.CipherWN, o.built.CipherW, o.built.CipherR, coqHead(o), coqNats(o.built.LCSched), hexs(o.sc.socksReply), o.built.DCRead0, hexs(o.built.Early), hexs(o.built.Skip), hexs(o.built.Kept), tr, coqObs(o, true))
 		} else {
 			fmt.Fprintf(&sb, "{| ac_mode := %d; ac_wellformed := %s; ac_grace := (%d)%%Z; ac_fr := %s; ac_tmo := %s; ac_treq := (%d)%%Z; ac_tresp := (%d)%%Z; ac_early := %d; ac_skip := %d; ac_kept := %d;\n   ac_trace := %s;\n   ac_obs := %s |}",
 				modeN(p.Mode), b2c(ok), graceNs, coqFraming(p), coqTimeouts(p), o.built.TReq, o.built.TResp, o.built.EarlyN, o.built.SkipN, o.built.KeptN, tr, coqObs(o, false))
@@ -516,7 +519,7 @@ func coqCase(o outcome, graceNs int64) string {
 
 const shardHead = `From Coq Require Import List NArith ZArith String.
 From FwdLib Require Import Bytes.
-From G03 Require Import Tables Tunnel Abstract Weak ReplyReader Switchover Deadlines Check.
+From G03 Require Import Tables Tunnel Abstract Weak ReplyReader Switchover Socks Deadlines Check.
 Import ListNotations.
 Open Scope N_scope.
 `
